@@ -27,9 +27,8 @@
      [k |-> "blank", form]             empty line / white space / comment
      [k |-> "bad", what]               a malformed line (must be refused)
      [k |-> "gen", start, stop, step, lhs, ttl, cls, ty, rhs]      $GENERATE
-         lhs = [pre, off, w, b, rest]   owner  <pre>${off,w,b}[.rest]
-         rhs = [pre, off, w, b, rest, pfx]  name-valued (rest # <<"none">>) or an IPv4
-               address  pfx.${off}  (rest = <<"none">>)
+         lhs = [items, abs]   owner text with any number of $ / ${off,width,base}, see GenName
+         rhs = [kind |-> "name", items, abs]  or  [kind |-> "addr", pfx, off] (IPv4 pfx.${off})
 
    ZONE CONTENT.  Function <<owner relative to the zone origin (label sequence, <<>> = apex),
    type>> -> [ttl, rds], an rdata being <<names (absolute), data>>.  Whether the loaded
@@ -85,18 +84,52 @@ ZoneOfRecs(recs) ==
 Recs(z) == UNION {{<<k[1], k[2], z[k].ttl, rd>> : rd \in z[k].rds} : k \in DOMAIN z}
 
 ---------------------------------------------------------------------------
-(* $GENERATE text formatting: ${offset,width,base}, values 0..255 *)
+(* $GENERATE (BIND): each side is text in which every "$" - bare or with its own modifiers
+   ${offset[,width[,base]]} - is replaced by the formatted iterator value.  A side is
+       [items, abs]   items: sequence of <<"lit", s>> (s without dots) | <<"dot">> | <<"mod", offset, width, base>>
+   The expansion is a sequence of text pieces; "." separates labels.  Bases: d, x (zero-filled to
+   the width) and n / N (nibbles: hex digits lowest first, one label each, the field at least
+   `width` characters wide counting the separators, never cut - BIND's nibbles()).  The name is
+   absolute when the text ends in a dot (abs, or a nibble field that ends in its separator). *)
 HexDigit == <<"0", "1", "2", "3", "4", "5", "6", "7", "8", "9", "a", "b", "c", "d", "e", "f">>
-Hex(v) == IF v < 16 THEN HexDigit[v + 1] ELSE HexDigit[(v \div 16) + 1] \o HexDigit[(v % 16) + 1]
-NDigits(v, b) == IF b = "x" THEN (IF v < 16 THEN 1 ELSE 2)
-                 ELSE (IF v < 10 THEN 1 ELSE IF v < 100 THEN 2 ELSE 3)
+HexDigitU == <<"0", "1", "2", "3", "4", "5", "6", "7", "8", "9", "A", "B", "C", "D", "E", "F">>
+RECURSIVE Hex(_)
+Hex(v) == IF v < 16 THEN HexDigit[v + 1] ELSE Hex(v \div 16) \o HexDigit[(v % 16) + 1]
+RECURSIVE NHexDigits(_)
+NHexDigits(v) == IF v < 16 THEN 1 ELSE 1 + NHexDigits(v \div 16)
+NDigits(v, b) == IF b = "x" THEN NHexDigits(v)
+                 ELSE (IF v < 10 THEN 1 ELSE IF v < 100 THEN 2 ELSE IF v < 1000 THEN 3 ELSE 4)
 Zeros(k) == CASE k <= 0 -> "" [] k = 1 -> "0" [] k = 2 -> "00" [] k = 3 -> "000" [] OTHER -> "0000"
 Fmt(v, w, b) == Zeros(w - NDigits(v, b)) \o (IF b = "x" THEN Hex(v) ELSE ToString(v))
+RECURSIVE Nibbles(_, _, _)
+Nibbles(v, w, digits) ==     \* pieces: digit, ".", digit, ...
+    LET d == <<digits[(v % 16) + 1]>>
+        v2 == v \div 16
+        w1 == IF w > 0 THEN w - 1 ELSE 0
+    IN IF w1 > 0 \/ v2 # 0
+       THEN LET w2 == IF w1 > 0 THEN w1 - 1 ELSE 0
+            IN d \o <<".">> \o (IF v2 # 0 \/ w2 > 0 THEN Nibbles(v2, w2, digits) ELSE <<>>)
+       ELSE d
+ItemPieces(it, i) ==
+    CASE it[1] = "lit" -> <<it[2]>>
+      [] it[1] = "dot" -> <<".">>
+      [] it[1] = "mod" -> IF it[4] = "n" THEN Nibbles(i + it[2], it[3], HexDigit)
+                          ELSE IF it[4] = "N" THEN Nibbles(i + it[2], it[3], HexDigitU)
+                          ELSE <<Fmt(i + it[2], it[3], it[4])>>
+RECURSIVE SidePieces(_, _, _)
+SidePieces(items, k, i) == IF k > Len(items) THEN <<>> ELSE ItemPieces(items[k], i) \o SidePieces(items, k + 1, i)
+RECURSIVE LabelsOf(_, _, _, _)
+LabelsOf(ps, k, cur, acc) ==      \* split the pieces at "." into labels
+    IF k > Len(ps) THEN (IF cur = "" THEN acc ELSE Append(acc, cur))
+    ELSE IF ps[k] = "." THEN LabelsOf(ps, k + 1, "", Append(acc, cur))
+    ELSE LabelsOf(ps, k + 1, cur \o ps[k], acc)
 GenRange(g) == {i \in g.start..g.stop : (i - g.start) % g.step = 0}
 GenName(side, i, o) ==
-    LET lab == side.pre \o Fmt(i + side.off, side.w, side.b)
-    IN IF side.rest[1] = "abs" THEN <<lab>> \o side.rest[2] ELSE <<lab>> \o side.rest[2] \o o
-GenRd(g, i, o) == IF g.rhs.rest[1] = "none" THEN <<(<<>>), g.rhs.pfx \o <<i + g.rhs.off>>>>
+    LET ps == SidePieces(side.items, 1, i)
+        labs == LabelsOf(ps, 1, "", <<>>)
+    IN IF side.abs \/ ps[Len(ps)] = "." THEN labs ELSE labs \o o
+(* rhs: a name ([kind |-> "name", items, abs]) or an IPv4 address pfx.${offset} ([kind |-> "addr", pfx, off]) *)
+GenRd(g, i, o) == IF g.rhs.kind = "addr" THEN <<(<<>>), g.rhs.pfx \o <<i + g.rhs.off>>>>
                   ELSE <<(<<GenName(g.rhs, i, o)>>), <<>>>>
 
 ---------------------------------------------------------------------------
